@@ -39,12 +39,14 @@ func c18ExpectedCodes(applied string) []string {
 		return []string{"annotation-properties-invalid-value-for-key"}
 	case "dupTemplateName":
 		return []string{"linker-duplicate-url-parameter"}
-	case "unboundTemplateName", "prefixParam":
+	case "unboundTemplateName", "prefixParam", "oddNameUnbound":
 		return []string{"linker-route-missing-path-reference"}
 	case "bodyAndForm":
 		return []string{"annotation-mutually-exclusive"}
 	case "bodyPrimitive":
 		return []string{"receiver-invalid-body"}
+	case "namesakeNotError":
+		return []string{"receiver-return-value-is-not-an-error"}
 	case "verb":
 		if strings.HasSuffix(applied, ":get") || strings.HasSuffix(applied, ":FETCH") {
 			return []string{"annotation-value-invalid"}
@@ -112,7 +114,11 @@ func c18Check(m lkModel, rec *ev.Recorder) []harness.Viol {
 	ents := map[string]entity{}
 	for _, c := range ctrls {
 		d, ok := lay.CtrlDoc[c.Name]
-		ents["Controller/"+c.Name] = entity{file: filepath.Join("api", c.File), doc: d, hasDoc: ok, decl: lay.CtrlDecl[c.Name], values: map[string]bool{c.Prefix: true, c.Name: true}}
+		pkgDir := "api"
+		if c.Pkg2 {
+			pkgDir = "api2"
+		}
+		ents["Controller/"+c.Name] = entity{file: filepath.Join(pkgDir, c.File), doc: d, hasDoc: ok, decl: lay.CtrlDecl[c.Name], values: map[string]bool{c.Prefix: true, c.Name: true}}
 		for _, r := range c.Routes {
 			vals := map[string]bool{r.Verb: true, r.Route: true}
 			for _, a := range r.Anns {
@@ -122,7 +128,7 @@ func c18Check(m lkModel, rec *ev.Recorder) []harness.Viol {
 				vals["{"+n+"}"] = true
 			}
 			d, ok := lay.MethDoc[r.Name]
-			ents["Receiver/"+r.Name] = entity{file: filepath.Join("api", r.File), doc: d, hasDoc: ok, decl: lay.MethDecl[r.Name], values: vals}
+			ents["Receiver/"+r.Name] = entity{file: filepath.Join(pkgDir, r.File), doc: d, hasDoc: ok, decl: lay.MethDecl[r.Name], values: vals}
 		}
 	}
 	for i, d := range fd {
